@@ -806,9 +806,16 @@ func runC15(res *hx.Result, rng *hx.Rng, tier string, outdir string) {
 	}
 	// unsync_local: lock skeleton of the directory methods + stress in a child process
 	sk := c15skel.Analyse(repo)
-	crashed, crashLine := false, ""
+	crashed, crashLine, double := false, "", ""
 	{
-		out, err := runChild("C15-child-race", outdir, map[string]string{"C15_RACE_MS": map[bool]string{true: "6000", false: "2000"}[tier == "thorough"]}, 60*time.Second)
+		ms := "2000"
+		if tier == "thorough" {
+			ms = "6000"
+		}
+		if !sk.AllLocked && !sk.NoneLocked {
+			ms = "10000" // the lock skeleton is neither of the two accepted shapes: search longer for a failing run
+		}
+		out, err := runChild("C15-child-race", outdir, map[string]string{"C15_RACE_MS": ms}, 90*time.Second)
 		if err != nil {
 			for _, l := range strings.Split(out, "\n") {
 				if strings.HasPrefix(l, "fatal error:") || strings.HasPrefix(l, "panic:") {
@@ -820,15 +827,38 @@ func runC15(res *hx.Result, rng *hx.Rng, tier string, outdir string) {
 				res.Notes = append(res.Notes, "race child failed without a fatal error line: "+tail(out, 300))
 			}
 		}
+		for _, l := range strings.Split(out, "\n") {
+			if strings.HasPrefix(l, "DOUBLE:") {
+				double = "two registrations of one name started together: " + strings.TrimPrefix(l, "DOUBLE: ")
+			}
+		}
 	}
-	unsync := !sk.AllLocked
+	// the switch is on for the pinned shape only: no method synchronises at all.  A tree
+	// where some methods lock and others do not is neither the finding nor clean: the fact
+	// obligation tie_sync breaks and every anomaly below is reported as a failure.
+	unsync := sk.NoneLocked
 	detail := "lock skeleton: " + sk.Summary
 	if crashed {
 		detail += "; 3 remote clients (register/ready/services/unregister) + 2 goroutines (Server.NewService / Service.Terminate) against one directory: process died with `" + crashLine + "`"
 	}
+	if double != "" {
+		detail += "; " + double
+	}
 	res.Switch("unsync_local", unsync, detail)
-	if crashed && !unsync {
-		res.Fail("crash", "every directory method holds the lock according to the skeleton, yet the concurrent local+remote stress died: "+crashLine)
+	if crashed {
+		d := "concurrent local+remote stress (3 remote clients looping register/ready/services/unregister(\"x\"), 2 goroutines looping Server.NewService(\"x\")/Terminate) killed the directory process: " + crashLine
+		if unsync {
+			res.FailKnown("crash", d, "unsync_local")
+		} else {
+			res.Fail("crash", d+" (lock skeleton: "+sk.Summary+")")
+		}
+	}
+	if double != "" {
+		if unsync {
+			res.FailKnown("name-unique-concurrent", double, "unsync_local")
+		} else {
+			res.Fail("name-unique-concurrent", double+" (lock skeleton: "+sk.Summary+")")
+		}
 	}
 
 	cf := hx.NewCases(outdir, "C15", "From QV Require Import Lin Directory C15Run.", "mismatches cfg_obs scases hcases", res,
